@@ -30,7 +30,8 @@ type Cfg struct {
 	Anon, Named, SCO bool
 }
 
-func (c Cfg) fields() rt.M { return rt.M{"anon": c.Anon, "named": c.Named, "sco": c.SCO} }
+// (keys sort after "ev" so that every Reset line starts with {"ev":"Reset" - verifylib splits on that)
+func (c Cfg) fields() rt.M { return rt.M{"hasAnon": c.Anon, "hasNamed": c.Named, "sco": c.SCO} }
 
 // Pt is one data point: alert ID (= group) and the level its value maps to.
 type Pt struct {
